@@ -28,6 +28,8 @@ import threading
 
 import lemoncheesecake.api as lcc
 
+from run.gen import effective_act as _effective_act
+
 _RAISES = {"exc": Exception, "AbortTest": lcc.AbortTest, "AbortSuite": lcc.AbortSuite, "AbortAllTests": lcc.AbortAllTests}
 
 
@@ -121,6 +123,8 @@ class Interp:
 
     def run_acts(self, unit, script):
         for i, act in enumerate(script):
+            if "only_in_run" in act:        # guarded act (gen.effective_act): depends on which run of the process this is
+                act = _effective_act(act, getattr(self, "run_index", 1))
             self.user(unit, "act:%d" % i, None)
             self.do_act(unit, i, act)
 
